@@ -1,3 +1,4 @@
+import ActixNet.Generated.Src
 /-!
 # Model `Rt`: actix-rt at message level (system.rs, arbiter.rs, runtime.rs)
 
@@ -21,7 +22,7 @@ communicate through:
 unchanged.  Theorems quantify over arbitrary label lists, hence over all schedules and over all
 behaviours of the client threads (`newArb`, `send`, `sysSend` are the client's actions).
 
-Import-free so that the driver links as a `lean_exe`.
+Imports only the generated source facts (T1) so that the driver links as a `lean_exe`.
 -/
 namespace ActixNet.Rt
 
@@ -204,5 +205,29 @@ def blockOnFuel {α : Type} : Nat → Fut α → Option α
     | .inl f' => blockOnFuel fuel f'
 
 def blockOn {α : Type} (f : Fut α) : Option α := blockOnFuel (f.pend + 1) f
+
+/-! ### T1: the source lines the transition rules above are written from
+
+Regenerated from /repo on every check by tools/spans/rt.py (shape facts, not kernels).  Each fact
+backs one rule of `step`; `Props/C09`, `Props/C10` prove the conjunctions true by `decide`, so an edit
+of the decisive lines breaks a proof obligation. -/
+
+/-- `ctrl` rule: `Exit` stops every registered arbiter and sends the code through `stop_tx.take()`;
+`Register` inserts, `Deregister` removes; `newArb` = Register enqueued before `new` returns; `fin` =
+Deregister enqueued after the loop; `sysSend` = `stop_with_code` sends `Exit(code)`; `runResult`. -/
+def sourceShapeC09 : Bool :=
+  Src.rtExitStopsAll && Src.rtExitSendsCodeOnce && Src.rtRegisterInserts && Src.rtDeregisterRemoves &&
+  Src.rtCtrlLoopsUntilPending && Src.rtRunZeroIsOk && Src.rtRunUsesRunWithCode &&
+  Src.rtRunWithCodeBlocksOnOneshot && Src.rtStopSendsExit && Src.rtThreadLocalsBeforeRegister &&
+  Src.rtRegisterBeforeReady && Src.rtReadyBeforeRun && Src.rtDeregisterAfterRun && Src.rtNewWaitsForReady &&
+  Src.rtRunnerStopEnds && Src.rtHandleStopSends && Src.rtJoinJoinsThread
+
+/-- `runner` rule: `Stop` ends the loop, `Execute` is `spawn_local`ed (started later, by `task`), a
+closed channel ends it; `send` rule: `spawn`/`spawn_fn`/`stop` are one `tx.send(..).is_ok()`. -/
+def sourceShapeC10 : Bool :=
+  Src.rtRunnerLoopsUntilPending && Src.rtRunnerClosedEnds && Src.rtRunnerStopEnds &&
+  Src.rtRunnerExecuteSpawnsLocal && Src.rtHandleSpawnSends && Src.rtHandleSpawnFnIsSpawn &&
+  Src.rtHandleStopSends && Src.rtArbiterSpawnSends && Src.rtArbiterStopSends && Src.rtJoinJoinsThread &&
+  Src.rtThreadLocalsBeforeRegister && Src.rtReadyBeforeRun && Src.rtDeregisterAfterRun
 
 end ActixNet.Rt
